@@ -49,6 +49,9 @@ type asStep struct {
 	// "clone" = a fresh Clone() of it, "parsed" = a reference parsed from the path string for this send,
 	// "held" = one reference object per actor parsed before anything was spawned and re-used
 	Via string `json:"via,omitempty"`
+	// random/directed scenarios only: Burst = issue this operation right after the previous one, with no turn in
+	// between; A = "settle" lets every ready actor take turns until nobody is ready
+	Burst bool `json:"burst,omitempty"`
 	// model projection after the step (optional): per actor [st, zombie, restarting, paused, nchildren, nstash, nsys, nuser]
 	Proj map[string][]any `json:"proj,omitempty"`
 }
@@ -739,8 +742,25 @@ func runActorScenario(sc *asScenario, schedule []asStep, seed int64, randomOps [
 		} else {
 			st := pending[0]
 			pending = pending[1:]
-			if !x.do(st) && x.stuck != "" {
+			if st.A == "settle" {
+				for g2 := 0; g2 < 2000; g2++ {
+					rd := x.ready()
+					if len(rd) == 0 {
+						break
+					}
+					if !x.do(asStep{A: "turn", X: nameFromPath(rd[rng.Intn(len(rd))])}) && x.stuck != "" {
+						return fail()
+					}
+				}
+			} else if !x.do(st) && x.stuck != "" {
 				return fail()
+			}
+			for len(pending) > 0 && pending[0].Burst {
+				st = pending[0]
+				pending = pending[1:]
+				if !x.do(st) && x.stuck != "" {
+					return fail()
+				}
 			}
 		}
 		run.Steps++
